@@ -100,6 +100,41 @@ def amp_idx(t: np.ndarray, cols_occ, rows_occ) -> complex:
     return perm(t[np.ix_(r, c)]) / math.sqrt(f)
 
 
+def amplitudes_poly(u: np.ndarray, occ_in) -> dict:
+    """All output amplitudes <occ_out| U |occ_in> at once, by expanding prod_j (sum_i U_ij x_i)^(n_j) as a polynomial in
+    the creation operators (coefficient of prod_i x_i^(k_i) times sqrt(prod k_i! / prod n_j!)). No permanents: the cost
+    is (number of output patterns) x modes x photons, so heavily bunched inputs on few modes - where a permanent would
+    be 2^n - stay cheap. Independent of ``perm`` above (the self-test cross-checks the two)."""
+    u = np.asarray(u, dtype=complex)
+    m = u.shape[0]
+    poly = {tuple([0] * m): 1.0 + 0j}
+    for j, nj in enumerate(occ_in):
+        col = u[:, j]
+        nz = [(i, col[i]) for i in range(m) if col[i] != 0]
+        for _ in range(int(nj)):
+            new: dict = {}
+            for key, val in poly.items():
+                for i, c in nz:
+                    k2 = key[:i] + (key[i] + 1,) + key[i + 1:]
+                    new[k2] = new.get(k2, 0j) + val * c
+            poly = new
+    f_in = 1
+    for nj in occ_in:
+        f_in *= math.factorial(int(nj))
+    out = {}
+    for key, val in poly.items():
+        f_out = 1
+        for k in key:
+            f_out *= math.factorial(k)
+        out[key] = val * math.sqrt(f_out / f_in) if f_out < 1e300 and f_in < 1e300 else \
+            val * math.exp(0.5 * (math.lgamma(1) + sum(math.lgamma(k + 1) for k in key)
+                                  - sum(math.lgamma(int(nj) + 1) for nj in occ_in)))
+    return out
+
+
+POLY_ABOVE_PHOTONS = 7      # from here on distributions / amplitude tables come from amplitudes_poly
+
+
 def distribution(u_full: np.ndarray, n_real: int, occ_in_real) -> dict:
     """Exact probability of every pattern on the first n_real modes, summed over
     all ways the remaining photons end up in the loss modes (vacuum injected
@@ -109,6 +144,12 @@ def distribution(u_full: np.ndarray, n_real: int, occ_in_real) -> dict:
     occ_in = list(occ_in_real) + [0] * n_loss
     n = sum(occ_in)
     out: dict = {}
+    if n > POLY_ABOVE_PHOTONS:
+        for occ, a in amplitudes_poly(u_full, occ_in).items():
+            p = abs(a) ** 2
+            if p:
+                out[occ[:n_real]] = out.get(occ[:n_real], 0.0) + p
+        return out
     for occ in fock(n_tot, n):
         a = amplitude(u_full, occ_in, occ)
         p = abs(a) ** 2
